@@ -1,4 +1,5 @@
 import LyModel.Sib.Tree
+import LyModel.Sib.Rb
 /-!
 driver ops of component `sib`:
 
@@ -85,6 +86,16 @@ def handle (op : String) (args : List String) : String :=
     | some ents =>
       let f : Forest := { ents := ents, infos := [], lists := [], nextGid := 0, fixedChange := variant.startsWith "f" }
       "ok D=" ++ Hex.enc (bytesOfString (showDesc ents)) ++ runScript f ((script.splitOn ";").filter (· ≠ ""))
+  | "rb", [_variant, _desc, _yang, keys] =>
+    -- stage 2: shape of the red-black tree after inserting the keys one by one, and its in-order sequence
+    match (keys.splitOn ",").mapM (fun k => parseInt (bytesOfString k)) with
+    | none => "err BadKey"
+    | some ks =>
+      -- a single instance has no tree yet (created lazily with the second instance)
+      let t := ks.foldl (fun t k => Rb.insert (fun d x => decide (d > x)) k t) (Rb.T.nil : Rb.T Int)
+      let t' := if ks.length < 2 then Rb.T.nil else t
+      "ok " ++ " ".intercalate (Rb.shape (fun (k : Int) => toString k) t') ++ " | " ++
+        " ".intercalate ((Rb.inorder t).map (fun (k : Int) => toString k))
   | _, _ => "err BadOp"
 
 end LyModel.Sib.Drv
